@@ -44,6 +44,10 @@ pub enum EStep {
     OtherRemote { e: Ent, status: u8, peer: u8 },
     OtherLocal { a: u8, #[serde(with = "hexbytes")] k: Vec<u8>, c: u8 },
     OtherPolicy { p: PolicySpec },
+    /// a third document that nothing is ever written to: subscriber `i`'s channel (a clone of
+    /// its sender) is registered on it too by an open, or the document is closed completely.
+    /// Neither may change what the subscriber is told about the document under test.
+    SharedDoc { i: u8, close: bool },
     Tick { dt: u64 },
     Await,
     /// import a capability for the (open) document: a write capability upgrades a read-only one
@@ -143,6 +147,7 @@ impl Scenario for Events {
                     let bad = if rng.chance(1, 5) { Some(rng.below(es.len() as u64) as u8) } else { None };
                     EStep::Message { es, status: rng.below(3) as u8, peer: rng.below(3) as u8, bad }
                 }
+                33 if (other || handles) && !self.only_download => EStep::SharedDoc { i: rng.below(4) as u8, close: rng.chance(1, 2) },
                 32 | 33 => EStep::SetPolicy { p: gen_policy(rng) },
                 38 if handles => match rng.below(6) {
                     0 | 1 => EStep::Import { write: rng.chance(2, 3) },
@@ -295,6 +300,7 @@ async fn run(plan: &EventsPlan, cx: &mut Cx, only_download: bool) -> Res {
         ensure_doc(sut.store(), 0)?;
     }
     ensure_doc(sut.store(), 1)?;
+    ensure_doc(sut.store(), 2)?;
     for a in 0..2 {
         sut.store().import_author(w.authors[a].clone()).map_err(|e| harness(format!("{e:#}")))?;
     }
@@ -317,6 +323,8 @@ async fn run(plan: &EventsPlan, cx: &mut Cx, only_download: bool) -> Res {
     let mut policy1: Option<PolicySpec> = None;
     let mut applied1: Vec<Applied> = Vec::new();
     let mut other_sub: Option<Sub> = None;
+    let ns2 = w.doc_id(2);
+    let mut shared_handles = 0u32;
     type PendFut = Pin<Box<dyn Future<Output = Result<(), String>>>>;
     let mut pending: Vec<(String, PendFut, Option<bool>)> = Vec::new();
     let mut policy_reads: Vec<usize> = Vec::new();
@@ -617,6 +625,31 @@ async fn run(plan: &EventsPlan, cx: &mut Cx, only_download: bool) -> Res {
                     let _ = poll_once(&mut fut);
                     pending.push(("get-policy".into(), fut, None));
                     policy_reads.push(pending.len() - 1);
+                }
+            }
+            EStep::SharedDoc { i, close } => {
+                let h2 = h.clone();
+                if *close {
+                    if shared_handles > 0 {
+                        shared_handles -= 1;
+                        let mut fut: PendFut = Box::pin(async move { h2.close(ns2).await.map(|_| ()).map_err(|e| format!("{e:#}")) });
+                        let _ = poll_once(&mut fut);
+                        pending.push(("close-shared-document".into(), fut, Some(true)));
+                        if shared_handles == 0 {
+                            cx.fault("document_sharing_a_subscriber_channel_closed");
+                        }
+                        cx.ev("shared-close", format!("{shared_handles}"));
+                    }
+                } else if let Some(s) = subs.get(*i as usize % subs.len().max(1)) {
+                    if s.rx.is_some() && !s.dropped && s.end.is_none() {
+                        let tx = s.tx.clone();
+                        shared_handles += 1;
+                        let mut fut: PendFut = Box::pin(async move { h2.open(ns2, OpenOpts::default().subscribe(tx)).await.map_err(|e| format!("{e:#}")) });
+                        let _ = poll_once(&mut fut);
+                        pending.push(("open-shared-document".into(), fut, Some(true)));
+                        cx.probe("subscriber_channel_shared_with_another_document");
+                        cx.ev("shared-open", format!("sub {i}"));
+                    }
                 }
             }
             EStep::OtherRemote { .. } | EStep::OtherLocal { .. } | EStep::OtherPolicy { .. } => {
